@@ -111,6 +111,11 @@ impl Command for AliasCommand {
                 handle_option = Some(handle);
             }
 
+            let handles_before: Vec<String> = get_handles_sub_state(context.state)
+                .keys()
+                .cloned()
+                .collect();
+
             let (flow_result, flow_output) = eval::eval_instructions(
                 &self.instructions,
                 context.commands,
@@ -128,6 +133,10 @@ impl Command for AliasCommand {
                     }
                 }
                 None => (),
+            }
+            // a failed script does not return a handle, so whatever it created is garbage
+            if let Some(CommandResult::Error(_)) | Some(CommandResult::Crash(_)) = flow_result {
+                get_handles_sub_state(context.state).retain(|key, _| handles_before.contains(key));
             }
             clear(&self.scope_name, context.variables);
             forin::remove_call_info_for_context(&self.scope_name, context.state);
